@@ -304,6 +304,31 @@ func c11Run(e *core.Env) {
 			}
 		}
 	}
+	// (c') every perfect square m^2 under all eight context modes: the root is exact, so no mode may matter and
+	// Inexact must stay clear
+	sqm := int64(2000)
+	if e.Thorough() {
+		sqm = 10000
+	}
+	for m := int64(1); m < sqm; m++ {
+		idx++
+		if !e.Mine(idx) {
+			continue
+		}
+		sq := new(big.Int).Mul(big.NewInt(m), big.NewInt(m))
+		nd := uint32(ref.NDig(big.NewInt(m)))
+		for _, ex := range []int32{0, -2, -4, 2, -10} {
+			x := FinBig(sq, ex, false)
+			e.State()
+			for _, md := range Modes8 {
+				for _, p := range []uint32{nd, nd + 1, 9, 16} {
+					cc := MkCtx(p, -6143, 6144, md, 0)
+					cls, triv, msg := c11Sqrt(x, cc)
+					report("Sqrt", x, cc, cls+"/perfect-square", triv, msg)
+				}
+			}
+		}
+	}
 	// (d) Cbrt: every m^3 with m < 10^4 (quick 2000), both signs, scaled by 10^(3j); DENSE(4|3) x exponents mod 3
 	mm := int64(2000)
 	dk := 3
@@ -375,9 +400,9 @@ func init() {
 		Rule:  "Sqrt on every coefficient below 10^(2p+2) for small p (both exponent parities), on the sparse SHAPE families for p = 1..16 under all context modes, and on the pre-images of every p-digit midpoint, against big.Int.Sqrt + sticky rounded half-even once (value and Inexact iff not exactly representable); Cbrt on every perfect cube m^3 (both signs, scaled) and DENSE operands against an exact (r+-ulp)^3 bracket; non-trivial = inexact root / non-trivial cube case",
 		Bounds: func(tier string) string {
 			if tier == "thorough" {
-				return "Sqrt: all coefficients < 10^(2p+2) for p <= 3 x 2 parities; SHAPE(14) x 6 exponents x p = 1..16 x 8 modes (+ tight range for p <= 5); midpoint pre-images for p <= 4 (j in {0,1,2,3,5,8,12,20}, +-1 in the last digit, 3 exponents); Cbrt: m^3 for m < 10^4 x 3 scalings x signs x 6 precisions, DENSE(4) x 5 exponents x 4 precisions, SHAPE"
+				return "Sqrt: all coefficients < 10^(2p+2) for p <= 3 x 2 parities; SHAPE(14) x 6 exponents x p = 1..16 x 8 modes (+ tight range for p <= 5); midpoint pre-images for p <= 4 (j in {0,1,2,3,5,8,12,20}, +-1 in the last digit, 3 exponents); every perfect square m^2, m < 10^4, x 5 exponents x 8 modes x 4 precisions; Cbrt: m^3 for m < 10^4 x 3 scalings x signs x 6 precisions, DENSE(4) x 5 exponents x 4 precisions, SHAPE"
 			}
-			return "Sqrt: all coefficients < 10^(2p+2) for p <= 2 x 2 parities; SHAPE(10) x 6 exponents x p in {1..9,16} x 8 modes (+ tight range for p <= 5); midpoint pre-images for p <= 3; Cbrt: m^3 for m < 2000 x 3 scalings x signs x 6 precisions, DENSE(3) x 5 exponents x 4 precisions, SHAPE"
+			return "Sqrt: all coefficients < 10^(2p+2) for p <= 2 x 2 parities; SHAPE(10) x 6 exponents x p in {1..9,16} x 8 modes (+ tight range for p <= 5); midpoint pre-images for p <= 3; every perfect square m^2, m < 2000, x 5 exponents x 8 modes x 4 precisions; Cbrt: m^3 for m < 2000 x 3 scalings x signs x 6 precisions, DENSE(3) x 5 exponents x 4 precisions, SHAPE"
 		},
 		Run:    c11Run,
 		Replay: c11Replay,
